@@ -50,7 +50,7 @@ fn step_strategy() -> impl Strategy<Value = Step> {
     ]
 }
 
-fn case_strategy() -> impl Strategy<Value = Case> {
+pub fn case_strategy() -> impl Strategy<Value = Case> {
     (
         prop_oneof![3 => 1u64..=300, 3 => 1u64..=65536, 1 => prop_oneof![Just(1u64), Just(63), Just(64), Just(65), Just(128), Just(65536)]],
         1u16..=16,
@@ -162,7 +162,7 @@ fn check_side(s: &Side, c: &Case, cap: u64, probes: &[u64], ctx: &str) -> Result
     Ok(())
 }
 
-fn run_case(c: &Case, info: &mut CaseInfo) -> Result<(), Fail> {
+pub fn run_case(c: &Case, info: &mut CaseInfo) -> Result<(), Fail> {
     let cap = c.num_bits.div_ceil(64) * 64;
     let n = c.n_filters.max(1) as usize;
     let words = (cap / 64) as usize;
